@@ -40,7 +40,9 @@ MANIFEST = {
             'clock under seeded random-walk and PCT schedules; the amount of '
             'virtual time that passes while the script thread is runnable (the '
             '"work" between delays) is itself a scheduling choice. Sampled '
-            'schedules, not enumeration.',
+            'schedules, not enumeration.'
+            ' Scripts without positive delays also run under a tick lengt'
+            'h of zero (the clock thread lives and ticks).',
     'note': 'Trusted: scheduler shims and virtual clock. "Within one tick" is '
             'rule T2; wall-clock time never decides. A thread held up by the '
             'scheduler is not a violation (only the rules above are).',
